@@ -699,7 +699,10 @@ Bounded('C15', 'raw_value_typing', _b_typing, doc='ParameterParser.transform aga
 
 
 # ------------------------------------------------------------------ bounded: the command-line program = building the same components through the library
-def write_case(rng, d):
+_CLI_COMBOS = [(None, None), (None, 'native'), ('file', None), ('file', 'native'), ('file', 'observed')]
+
+
+def write_case(rng, d, combo=None):
     """a random but valid forward-model set-up: cross-sections on disk + the numbers of every component"""
     import os
     import numpy as np
@@ -720,6 +723,16 @@ def write_case(rng, d):
                 mass=round(rng.uniform(0.3, 3), 2), radius=round(rng.uniform(0.5, 1.8), 2), tstar=round(rng.uniform(3500, 7000)), rstar=round(rng.uniform(0.5, 1.5), 2),
                 model=rng.choice(['transmission', 'emission', 'directimage']), temp=rng.choice(['isothermal', 'guillot']), rayleigh=rng.random() < 0.5,
                 new_path_method=rng.random() < 0.5, ngauss=rng.choice([2, 4, 6]))
+    # which spectrum the program is asked to store: no observation / an observed spectrum file, and the [Binning] selector
+    case['obs'], case['binning'] = combo if combo is not None else rng.choice(_CLI_COMBOS)
+    if case['obs']:
+        nb = rng.randint(4, 9)
+        edges = np.sort(np.array([rng.uniform(wn[1], wn[-2]) for _ in range(nb + 1)]))
+        cen = 0.5 * (edges[1:] + edges[:-1])
+        wl = 10000 / cen
+        rows = sorted(zip(wl, [rng.uniform(0.009, 0.011) for _ in cen], [rng.uniform(1e-5, 1e-4) for _ in cen]))
+        case['obs_file'] = os.path.join(d, 'observed.dat')
+        np.savetxt(case['obs_file'], np.array(rows))
     return case
 
 
@@ -758,7 +771,9 @@ model_type = %s
 %s
     [[Absorption]]
 %s""" % (case['xsec_path'], case['ratio'], gases, temp, case['pmin'], case['pmax'], case['nlayers'], case['mass'], case['radius'],
-         case['tstar'], case['rstar'], case['model'], model_keys(case), '\n    [[Rayleigh]]\n' if case['rayleigh'] else '')
+         case['tstar'], case['rstar'], case['model'], model_keys(case), '\n    [[Rayleigh]]\n' if case['rayleigh'] else '') + \
+        ('\n[Observation]\nobserved_spectrum = %s\n' % case['obs_file'] if case.get('obs') else '') + \
+        ('\n[Binning]\nbin_type = %s\n' % case['binning'] if case.get('binning') else '')
 
 
 def model_keys(case):
@@ -821,13 +836,13 @@ def _b_cli(seed, tier):
     here = os.path.dirname(os.path.dirname(os.path.abspath(__file__)))
     base = os.path.join(here, '.cache', 'c15')
     os.makedirs(base, exist_ok=True)
-    N = 2 if tier == 'quick' else 16
+    N = len(_CLI_COMBOS) if tier == 'quick' else 4 * len(_CLI_COMBOS)
     fails, cases, samples = [], 0, []
     saved = dict(GlobalCache().variable_dict)
     for it in range(N):
         d = tempfile.mkdtemp(prefix='cli', dir=base)
         try:
-            case = write_case(rng, d)
+            case = write_case(rng, d, _CLI_COMBOS[it % len(_CLI_COMBOS)])      # every observation x [Binning] combination, every run
             par, out = os.path.join(d, 'in.par'), os.path.join(d, 'out.h5')
             open(par, 'w').write(par_text(case))
             inp = {k: v for k, v in case.items() if k != 'xsec_path'}
@@ -838,7 +853,24 @@ def _b_cli(seed, tier):
                 with h5py.File(out, 'r') as f:
                     cli_spec = f['Output/Spectra/native_spectrum'][...]
                     cli_grid = f['Output/Spectra/native_wngrid'][...]
-                lib = library_model(case).model()
+                    g = f['Output/Spectra']
+                    # (the native binner stores no separate binned arrays: the stored spectrum is the native one)
+                    cli_bgrid = g['binned_wngrid'][...] if 'binned_wngrid' in g else cli_grid
+                    cli_bspec = g['binned_spectrum'][...] if 'binned_spectrum' in g else cli_spec
+                lm = library_model(case)
+                if case.get('obs'):
+                    from taurex.data.spectrum.observed import ObservedSpectrum
+                    obs = ObservedSpectrum(case['obs_file'])
+                # the stored spectrum: the [Binning] selector decides, the observation's grid when there is none (and an observation)
+                if case.get('binning') == 'native' or (case.get('binning') is None and not case.get('obs')):
+                    want_grid, want_spec = cli_grid, cli_spec
+                else:
+                    res = obs.create_binner().bindown(cli_grid, cli_spec)
+                    want_grid, want_spec = res[0], res[1]
+                if cli_bgrid.shape != np.shape(want_grid) or not np.allclose(cli_bgrid, want_grid) or not np.allclose(cli_bspec, want_spec, rtol=1e-10, atol=0):
+                    fails.append(dict(clause='cli.stored_spectrum_not_on_the_selected_binning', inputs=inp,
+                                      got=dict(stored_points=int(cli_bgrid.shape[0]), expected_points=int(np.shape(want_grid)[0]))))
+                lib = lm.model()
             except Exception as e:
                 fails.append(dict(clause='cli.raises', inputs=inp, got=repr(e)[:300]))
                 continue
@@ -854,7 +886,8 @@ def _b_cli(seed, tier):
             shutil.rmtree(d, ignore_errors=True)
     return {'cases': cases, 'failures': fails, 'samples': samples,
             'bound': '%d generated input files (1..2 molecules, isothermal / Guillot, transmission / emission / direct image, with and '
-                     'without Rayleigh) run through taurex.taurex.main and through the library' % N}
+                     'without Rayleigh, with and without an observed spectrum, [Binning] absent / native / observed) run through '
+                     'taurex.taurex.main and through the library' % N}
 
 
 Bounded('C15', 'cli_equals_library', _b_cli, doc='whole-program statement: no contract within reach expresses it; bounded only')
@@ -1163,3 +1196,61 @@ SOP = Unit(['C15', 'C07'], PPQ + 'setup_optimizer', lambda c: dict(self=ObjSpec(
            inline=['generate_fitting_parameters', 'generate_derived_parameters'], short='ParameterParser.setup_optimizer',
            doc='what the input file asks of a retrieval reaches the optimizer: per parameter enable/disable, factor, bounds, lower-cased mode and '
                'prior, then the derived parameters, in file order and nothing else (the Optimizer mutators by their own units, C07)')
+
+
+# ------------------------------------------------------------------ bounded: `... = custom` + python_file selects the class written in that file
+def _b_custom(seed, tier):
+    """a user file imports its base class and defines ONE subclass: the selector must resolve to that subclass whatever its name
+    (importlib / inspect reflection: no contract within reach, bounded only)"""
+    import os
+    import random
+    import tempfile
+    from taurex.parameter.factory import detect_and_return_klass
+    rng = random.Random(seed)
+    here = os.path.dirname(os.path.dirname(os.path.abspath(__file__)))
+    base = os.path.join(here, '.cache', 'c15')
+    os.makedirs(base, exist_ok=True)
+    bases = [('taurex.data.profiles.temperature', 'TemperatureProfile'), ('taurex.data.stellar.star', 'Star'), ('taurex.data.planet', 'Planet'),
+             ('taurex.data.profiles.chemistry.chemistry', 'Chemistry'), ('taurex.contributions', 'Contribution'), ('taurex.data.profiles.pressure', 'PressureProfile')]
+    fails, cases = [], 0
+    rounds = 1 if tier == 'quick' else 6
+    for _ in range(rounds):
+        for mod, bname in bases:
+            B = getattr(__import__(mod, fromlist=[bname]), bname)
+            # names that sort before and after the base-class name, and around upper / lower case
+            names = ['A' + bname, 'Z' + bname, bname + 'X', 'My' + rng.choice(['Warm', 'Rocky', 'Sun', 'Two']) + bname, 'aaa_' + bname.lower(), 'zzz_' + bname.lower()]
+            for nm in names:
+                cases += 1
+                fd, path = tempfile.mkstemp(suffix='.py', dir=base)
+                os.close(fd)
+                try:
+                    with open(path, 'w') as f:
+                        f.write('import numpy as np\nfrom %s import %s\n\n\nclass %s(%s):\n    marker = %r\n' % (mod, bname, nm, bname, nm))
+                    try:
+                        K = detect_and_return_klass(path, B)
+                    except Exception as e:
+                        fails.append(dict(clause='custom.raises', inputs=dict(base=bname, user_class=nm), got=repr(e)[:200]))
+                        continue
+                    if K is B or getattr(K, '__name__', None) != nm or getattr(K, 'marker', None) != nm:
+                        fails.append(dict(clause='custom.another_class_selected', inputs=dict(base=bname, user_class=nm), got=getattr(K, '__name__', repr(K))))
+                finally:
+                    os.remove(path)
+            # a file without any subclass is an error, not a silent choice of the base class
+            cases += 1
+            fd, path = tempfile.mkstemp(suffix='.py', dir=base)
+            os.close(fd)
+            try:
+                with open(path, 'w') as f:
+                    f.write('from %s import %s\nx = 1\n' % (mod, bname))
+                try:
+                    K = detect_and_return_klass(path, B)
+                    fails.append(dict(clause='custom.file_without_subclass_accepted', inputs=dict(base=bname), got=getattr(K, '__name__', repr(K))))
+                except Exception:
+                    pass
+            finally:
+                os.remove(path)
+    return {'cases': cases, 'failures': fails, 'samples': [dict(base='Star', user_class='ZStar')],
+            'bound': '%d generated user files (6 base classes x 6 class names sorting before / after the base name, plus a file without subclass) x %d rounds' % (cases // rounds, rounds)}
+
+
+Bounded('C15', 'custom_python_file_selects_the_user_class', _b_custom, doc='detect_and_return_klass: importlib / inspect reflection; bounded only')
